@@ -195,7 +195,7 @@ def c02(tier, rep):
     E.layering(rep, M.BASE, 3 if tier == "quick" else 4, label="base")
     # (g) real text: builder events and derivation predicate
     E.menu(rep, M.BASE, 3 if tier == "quick" else 4, invariants=["Inv_C02"], label="base")
-    E.traces(rep, E.record_all(std_sources(tier, 200, 2000)), "corpus+gen+noisy")
+    E.traces(rep, E.record_all(std_sources(tier, 200, 2000), iff=150 if tier == "quick" else 1500), "corpus+gen+noisy")
 
 
 def c05(tier, rep):
